@@ -12,7 +12,14 @@ REPO = os.environ.get('PYVC_REPO', '/repo')
 _cache = {}
 
 
+GHOST_DIR = os.path.join(os.path.dirname(os.path.dirname(os.path.abspath(__file__))), 'contracts')
+
+
 def module_path(mod):
+    if mod.startswith('ghost_'):
+        # ghost clients: lemma-carrying client code that lives in /verif and only CALLS functions of the
+        # repository through their contracts (never a replacement for repository code)
+        return os.path.join(GHOST_DIR, mod + '.py')
     return os.path.join(REPO, 'bisturi', mod + '.py')
 
 
